@@ -134,7 +134,8 @@ func (c *Client) consumeObject(state *ConsumeState) {
 	}
 
 	// passes ownership of state and callback to fetcher
-	c.segfetch <- state
+	// (this runs inside the engine callback of the metadata fetch: do not block)
+	handOver(c.segfetch, state)
 }
 
 func (c *Client) fetchMetadata(
